@@ -79,7 +79,8 @@ class C02(object):
                          'solver_reused_after_coarser_block.cases', 'route.constructor', 'route.manual_steps',
                          'zero_tolerance_requested.cases',
                          'retry_after_failed_solve.cases',
-                         'hostile.derived_only_nan.cases')
+                         'hostile.derived_only_nan.cases',
+                         'steady_state_option_then_shock.cases')
 
     def n_cases(self, tier):
         return 400 if tier == 'quick' else 40000
@@ -93,6 +94,19 @@ class C02(object):
             h = (idx // 20) % len(NAN_DERIVED)
             return {'kind': 'hostile', 'block': NAN_DERIVED[h][0], 'why': NAN_DERIVED[h][1], 'fn_nan': NAN_DERIVED[h][2],
                     'nan_derived': True, 'reduction': True, 'cap': 400, 'tol': None}
+        if idx % 20 == 16:
+            # the steady-state option together with an exogenous shock and a feedback loop; the accuracy is requested by the
+            # Err_Tolerance line of the block (not by the solver parameter): every period of the main run must meet it
+            a1, a2, th = rng.choice([0.6, 0.7]), rng.choice([0.3, 0.4]), rng.choice([0.2, 0.25])
+            T = rng.randint(5, 9)
+            g0, g1 = float(rng.randint(15, 25)), float(rng.randint(26, 40))
+            s_ = rng.randint(2, T - 1)
+            gpath = [g0] * s_ + [g1] * (T + 2 - s_)
+            tol = rng.choice([1e-9, 1e-10, 1e-11])
+            text = ('y = c + g\nc = %r*yd + %r*LAG_h\nyd = y - tx\ntx = %r*y\nh = LAG_h + yd - c\nLAG_h = h(k-1)\nd = y - c\n'
+                    'h(0) = %r\nMaxTime = %d\nErr_Tolerance = %r\nexogenous\ng = %r' % (a1, a2, th, float(rng.randint(10, 80)), T, tol, gpath))
+            return {'kind': 'steady_then_shock', 'text': text, 'maxtime': T, 'g': gpath, 'tol': tol, 'reduction': rng.random() < 0.5,
+                    'search_tol': rng.choice([1e-4, 1e-3])}
         if idx % 20 == 13:
             # a job that FAILS at a later period (too few sweeps for the shock), after which the caller gives the same solver
             # object more sweeps and solves again: what it then returns is judged like any other normal return
@@ -200,6 +214,8 @@ class C02(object):
             return self.run_model(case)
         if kind == 'retry':
             return self.run_retry(case)
+        if kind == 'steady_then_shock':
+            return self.run_steady_then_shock(case)
         counters = {}
         funcs = {}
         if kind == 'system':
@@ -389,6 +405,37 @@ class C02(object):
         return {'verdict': 'violated' if viol else 'held', 'nontrivial': first != 'returned', 'shape': 'retry|' + case['how'],
                 'counters': counters, 'violations': viol[:5],
                 'obs': {'first_outcome': first, 'shock_at': case['shock_at'], 'worst_ratio': stats['worst_ratio']},
+                'worst': {'residual_over_bound': stats['worst_ratio']}}
+
+    def run_steady_then_shock(self, case):
+        from sfc_models.equation_solver import EquationSolver
+        counters = {}
+        solver = EquationSolver(run_equation_reduction=case['reduction'])
+        solver.MaxIterations = 5000
+        solver.ParameterSolveInitialSteadyState = True
+        solver.ParameterInitialSteadyStateErrorToler = case['search_tol']
+        try:
+            with contextlib.redirect_stdout(io.StringIO()):
+                solver.ParseString(case['text'])
+                solver.SolveEquation()
+        except Exception as e:
+            return {'verdict': 'notjudged', 'shape': 'steady_then_shock|' + type(e).__name__, 'counters': counters,
+                    'obs': {'err': repr(e)[:200]}}
+        counters['steady_state_option_then_shock.cases'] = 1
+        blk = B.split_block(case['text'])
+        series = dict(solver.TimeSeries)
+        viol, stats = B.check_solution(blk, series, case['tol'])
+        n = case['maxtime'] + 1
+        if list(series.get('g', [])) != list(case['g'][:n]):
+            viol.append({'kind': 'exogenous_not_supplied_values', 'detail': {'var': 'g', 'got': list(series.get('g', []))[:8]}})
+        for v in viol:
+            v['mechanism'] = v['kind']
+            v['detail']['with'] = 'ParameterSolveInitialSteadyState = True (search tolerance %g), accuracy requested by the Err_Tolerance line' % case['search_tol']
+            v['detail']['block'] = case['text']
+        for k_ in ('equations_judged', 'exact_judged', 'lag_judged', 'finite_judged'):
+            counters[k_] = stats[k_]
+        return {'verdict': 'violated' if viol else 'held', 'nontrivial': True, 'shape': 'steady_then_shock',
+                'counters': counters, 'violations': viol[:5], 'obs': {'worst_ratio': stats['worst_ratio']},
                 'worst': {'residual_over_bound': stats['worst_ratio']}}
 
     @staticmethod
